@@ -278,7 +278,7 @@ def inputs_intact_chunk(cases):
             if src and (not case["inputs"] or case["params"].get("src")):
                 continue
             c2 = dict(case, params=dict(case["params"], **({"src": src} if src else {})))
-            for optimize in (True, False):
+            for optimize in ((True, False) if src is None else (True,)):
                 obs = run_case(c2, seed=worker_seed(), optimize=optimize)
                 n += 1
                 if obs.phase != "OK":
@@ -328,6 +328,8 @@ def run(ctx):
                     allowed = ("compute", "compute_all", "compute_pair") if tier == "quick" else ("compute", "compute_all", "compute_pair", "store", "to_zarr")
                     if not interesting(h) or e[0] not in allowed:
                         continue
+                    if tier == "quick" and not any(ev[0] in ("store", "to_zarr") and ev[1] >= 2 for ev in h):
+                        continue  # quick: the last level only after a store of a lazy (non-input) array
                     if tier == "quick" and e[0] == "compute" and (e[3] or not e[2]):
                         continue  # quick: at the last level only the plain compute variant
                 items.append(h + [list(e)])
